@@ -34,9 +34,10 @@ def scalar_types():
 def value_expr(g, ty, helpers, full):
     """a Rust expression of type `ty`; `full`: populate optionals / vectors"""
     if ty == "bool": return g.pick(["true", "false"])
-    if ty == "u8": return str(g.r.randrange(256))
-    if ty == "u32": return str(g.r.randrange(100000))
-    if ty == "i64": return str(g.r.randrange(-1000, 1000))
+    # one value in three sits at an end of the type's range or next to a narrower type's end (a schema may bound what serde does not)
+    if ty == "u8": return g.pick(["0", "255", "127", "128"]) if g.chance(1, 3) else str(g.r.randrange(256))
+    if ty == "u32": return g.pick(["0", "4294967295", "2147483647", "2147483648", "65535", "65536"]) if g.chance(1, 3) else str(g.r.randrange(100000))
+    if ty == "i64": return g.pick(["i64::MIN", "i64::MAX", "-2147483649", "2147483648", "-1", "0"]) if g.chance(1, 3) else str(g.r.randrange(-1000, 1000))
     if ty == "f64": return g.pick(["0.5", "1.0", "-2.25", "1e3"])
     if ty == "String": return g.pick(['"x".to_string()', 'String::new()', '"hello world".to_string()', '"狼".to_string()'])
     if ty.startswith("Option<"):
